@@ -92,11 +92,19 @@ def gen(ctx):
     for s in FIXED + G.semantic_corner_programs():
         progs.append((None, s))
     core.build_harness()
-    lines = ["CMP %d %s - -" % (i, G.hx(src)) for i, (_, src) in enumerate(progs)]
+    # compile-time overrides: every tenth generated program is compiled with an override list naming declared variables (the
+    # override is the variable's initial value: what a volatile variable returns to after each report)
+    upds = {}
+    for i, (p, src) in enumerate(progs):
+        if p is not None and i % 10 == 3:
+            names = G.declared_names(p)
+            if names:
+                upds[i] = ";".join("%s=%d" % (G.hx(rng.choice(names)), rng.choice([0, 1, 7, 1000, 2**31 - 1])) for _ in range(rng.randrange(1, 3)))
+    lines = ["CMP %d %s %s -" % (i, G.hx(src), upds.get(i, "-")) for i, (_, src) in enumerate(progs)]
     res = core.run_impl(lines)
     for i, (p, src) in enumerate(progs):
         r = res.get(str(i), "")
-        yield Case("CMP", "%s - -" % G.hx(src), tags=("compile",))
+        yield Case("CMP", "%s %s -" % (G.hx(src), upds.get(i, "-")), tags=("compile",))
         if not r.startswith("OK "):
             continue
         img = r.split(" ")[1]
@@ -105,7 +113,7 @@ def gen(ctx):
             script, ni, ln = script_for(rng, img, ne, rng.randrange(1, 21 if ctx.thorough else 9))
             if ni > 255 or ln > 32678:
                 continue
-            yield Case("VM", script, tags=("run",), meta=(G.hx(src), "-"))
+            yield Case("VM", script, tags=("run",), meta=(G.hx(src), upds.get(i, "-")))
 
 
 FIXED = [
